@@ -1,5 +1,5 @@
 import RTV.Lemmas.Choice
-/-! Kernel evaluation of the same-polarity pairs and the repeated expressions on the regenerated data. -/
+/-! Kernel evaluation of the same-polarity pairs (words / bare emoji) and the repeated expressions (every alternative) on the regenerated data. -/
 namespace RTV.Choice
 set_option maxRecDepth 100000
 theorem same_polarity_fast : samePolarityOK fastEnv = true := by decide +kernel
